@@ -165,6 +165,7 @@ func runRelay(c *Case, r *Run, script []relayEv, gapMode int, window int, chunk 
 			}
 			s.app.Out().CloseWrite()
 			s.app.Out().Pause(false)
+			synctest.Wait() // the relay deals with this end before the next event
 			if !anyEnd {
 				anyEnd, firstEnd, otherHealthy = true, s.name+"-eof", o.ended == "" && !o.werr
 			}
@@ -183,9 +184,16 @@ func runRelay(c *Case, r *Run, script []relayEv, gapMode int, window int, chunk 
 			s.cutAt = s.written
 			s.app.Out().SetCut(s.cutAt, CutRST)
 			s.app.Out().Pause(false)
+			synctest.Wait() // the relay deals with this end before the next event
 			if !anyEnd {
 				anyEnd, firstEnd, otherHealthy = true, s.name+"-rst", o.ended == "" && !o.werr
 			}
+		case "stall":
+			// this side's application stops reading: with a bounded window the
+			// relay's writes towards it block
+			s.relay.Out().SetWindow(4096)
+			s.relay.Out().Pause(true)
+			r.Count("relay_stalled_sink_scripts", 1)
 		case "werr":
 			if s.werr || s.ended != "" {
 				continue
@@ -234,7 +242,7 @@ func runRelay(c *Case, r *Run, script []relayEv, gapMode int, window int, chunk 
 		}
 		// a side that ended by EOF/reset while the other was healthy has had all
 		// the bytes the relay received from it forwarded first
-		if otherHealthy && (strings.HasSuffix(firstEnd, "-eof") || strings.HasSuffix(firstEnd, "-rst")) {
+		if otherHealthy && (strings.HasSuffix(firstEnd, "-eof") || strings.HasSuffix(firstEnd, "-rst")) && !stalledSink(script, firstEnd) {
 			s, o := A, B
 			if firstEnd[0] == 'b' {
 				s, o = B, A
@@ -244,6 +252,19 @@ func runRelay(c *Case, r *Run, script []relayEv, gapMode int, window int, chunk 
 				produced = s.cutAt
 			}
 			if o.gotOther != produced {
+				_, rr, _ := s.app.Out().Snapshot()
+				var tailEv []string
+				for _, e := range rr[tailFrom(len(rr)):] {
+					tailEv = append(tailEv, fmt.Sprintf("%d/%s", e.N, e.Err))
+				}
+				ww, _, _ := o.relay.Out().Snapshot()
+				var wEv []string
+				for _, e := range ww[tailFrom(len(ww)):] {
+					wEv = append(wEv, fmt.Sprint(e.N))
+				}
+				wit["relay_reads_from_ended_side"] = tailEv
+				wit["relay_writes_to_other_side"] = wEv
+				wit["other_read_err"] = fmt.Sprint(o.readErr)
 				c.Violation(sigOf("relay/earlier-bytes-not-forwarded/"+firstEnd), fmt.Sprintf("side %s ended (%s) after producing %d bytes while side %s was healthy, but only %d were forwarded before the teardown", s.name, firstEnd, produced, o.name, o.gotOther), wit)
 			} else {
 				r.Count("relay_all_earlier_bytes_forwarded", 1)
@@ -273,6 +294,28 @@ func runRelay(c *Case, r *Run, script []relayEv, gapMode int, window int, chunk 
 	wg.Wait()
 }
 
+// stalledSink reports whether the side that would have to receive the bytes
+// of the side that ended (the other side) had stopped reading.
+func stalledSink(script []relayEv, firstEnd string) bool {
+	other := "B"
+	if firstEnd[0] == 'b' {
+		other = "A"
+	}
+	for _, e := range script {
+		if e.kind == other+"stall" {
+			return true
+		}
+	}
+	return false
+}
+
+func tailFrom(n int) int {
+	if n > 6 {
+		return n - 6
+	}
+	return 0
+}
+
 func kinds(s []relayEv) []string {
 	var k []string
 	for _, e := range s {
@@ -283,12 +326,17 @@ func kinds(s []relayEv) []string {
 
 // classify gives a short stable class of a script for violation signatures.
 func classify(s []relayEv) string {
+	stalled := ""
 	for _, e := range s {
+		if e.kind[1:] == "stall" {
+			stalled = "stalled-sink/"
+			continue
+		}
 		if e.kind[1:] != "w" {
-			return "first-end-" + e.kind
+			return stalled + "first-end-" + e.kind
 		}
 	}
-	return "data-only"
+	return stalled + "data-only"
 }
 
 // ---------------------------------------------------------------- termination monitor
@@ -624,6 +672,22 @@ func TestCheck(t *testing.T) {
 		}
 	}
 	rec(nil)
+	// scripts with a sink that stops reading while the other side keeps sending,
+	// and then ends: the relay is blocked in Write towards the side whose read
+	// side ends
+	for _, xy := range [][2]string{{"A", "B"}, {"B", "A"}} {
+		x, y := xy[0], xy[1]
+		for _, end := range []string{"eof", "rst"} {
+			scripts = append(scripts,
+				[]relayEv{{x + "stall", 0}, {y + "w", 70000}, {x + end, 0}},
+				[]relayEv{{y + "w", 700}, {x + "stall", 0}, {y + "w", 70000}, {y + "w", 70000}, {x + end, 0}},
+				[]relayEv{{x + "w", 700}, {x + "stall", 0}, {y + "w", 70000}, {x + "w", 1}, {x + end, 0}})
+			// (the other order — the sending side ends while the relay is blocked
+			// writing to the stalled sink — is not judged: the copier that would see
+			// that end is the one blocked in Write, so no relay built from blocking
+			// copy loops can notice it before the sink reads again)
+		}
+	}
 	r.Note("exhaustive_part", fmt.Sprintf("relay: all %d scripts of length <= %d (at most 2 end events) over 10 event kinds; termination monitor: all histories of length <= %d", len(scripts), maxLen, r.Pick(5, 6)))
 	per := 40
 	for blk := 0; blk*per < len(scripts); blk++ {
